@@ -1,6 +1,6 @@
 # which properties have an extracted model runner, and which translators regenerate coq/gen/*.v
 import os, sys
-MODELS = ["C20", "C17"]
+MODELS = ["C20", "C17", "C13"]
 
 
 def _kw():
@@ -9,5 +9,12 @@ def _kw():
     kw.generate()
 
 
+def _mod(name):
+    def f():
+        sys.path.insert(0, os.path.join(os.path.dirname(os.path.abspath(__file__)), "..", "translate"))
+        __import__(name).generate()
+    return f
+
+
 def translators():
-    return [("kw", _kw)]
+    return [("kw", _kw), ("c13", _mod("c13"))]
